@@ -100,3 +100,36 @@ Proof.
   destruct (x =? 13) eqn:E6; [discriminate E|].
   apply N.eqb_neq in E2, E3, E4, E5, E6. repeat split; auto.
 Qed.
+
+(* ---- comments: unescape undoes escapeCommentString as well ---- *)
+Lemma escape_comment_from_length : forall d prev, (length d <= length (escape_comment_from prev d))%nat.
+Proof.
+  induction d as [|c d IH]; intros prev; cbn [escape_comment_from]; [lia|]. rewrite app_length. specialize (IH (Some c)).
+  destruct (c =? 38); [cbn; lia|]. destruct ((c =? 62) && _); cbn; lia.
+Qed.
+
+Lemma unescape_fuel_escape_comment : forall b d prev fuel, (length d < fuel)%nat ->
+  unescape_fuel fuel b (escape_comment_from prev d) = d.
+Proof.
+  intros b. induction d as [|c d IH]; intros prev fuel Hf.
+  - destruct fuel; [lia|]. reflexivity.
+  - destruct fuel as [|fuel]; [simpl in Hf; lia|].
+    assert (Hf' : (length d < fuel)%nat) by (simpl in Hf; lia).
+    cbn [escape_comment_from]. destruct (c =? 38) eqn:Ea.
+    + apply N.eqb_eq in Ea. subst c.
+      change (unescape_fuel (S fuel) b ([38;97;109;112;59] ++ escape_comment_from (Some 38) d))
+        with (let (o, rest) := unescape_entity b ([38;97;109;112;59] ++ escape_comment_from (Some 38) d) in o ++ unescape_fuel fuel b rest).
+      rewrite unescape_entity_amp. cbn [app]. rewrite IH; auto.
+    + destruct ((c =? 62) && match prev with None => true | Some p => (p =? 33) || (p =? 45) end) eqn:Eg.
+      * apply andb_true_iff in Eg as [Eg _]. apply N.eqb_eq in Eg. subst c.
+        change (unescape_fuel (S fuel) b ([38;103;116;59] ++ escape_comment_from (Some 62) d))
+          with (let (o, rest) := unescape_entity b ([38;103;116;59] ++ escape_comment_from (Some 62) d) in o ++ unescape_fuel fuel b rest).
+        rewrite unescape_entity_gt. cbn [app]. rewrite IH; auto.
+      * cbn [app unescape_fuel]. change AMP with 38. rewrite Ea. rewrite IH; auto.
+Qed.
+
+Theorem unescape_escape_comment : forall b d, unescape b (escape_comment d) = d.
+Proof.
+  intros b d. unfold unescape, escape_comment. apply unescape_fuel_escape_comment.
+  pose proof (escape_comment_from_length d None). lia.
+Qed.
